@@ -140,6 +140,44 @@ BLOCKS = {
             ],
         },
     },
+    "_sort_elements_by_color": {
+        # FunctionSpace._sort_elements_by_color as a whole: the launch batches of the coloured assembly (C16 hypothesis COLOURED: batch c holds elements of colour c
+        # only, each once; C04: every coloured element is in its batch)
+        "function": ("bempp_cl.api.space.space", "FunctionSpace._sort_elements_by_color"),
+        "loop": None,
+        "method": True,
+        "params": ["color_map", "number_of_support_elements"],
+        "returns": ["sorted_indices", "indexptr"],
+        "contract": {
+            "opaque_ok": True,
+            # numpy raises if the slice sorted_indices[count : count + len(colors)] leaves the array, i.e. unless the number of elements with a colour >= 0 is at most
+            # number_of_support_elements: a cardinality fact (the colour map is -1 exactly off the support) that the first-order encoding cannot derive -- assumed; its
+            # failure is a crash of the real code (ValueError), never a wrong batch
+            "assume_slice_store_in_range": True,
+            "args": {"color_map": ("arr1",), "number_of_support_elements": ("int",)},
+            "requires": ["len(color_map) > 0", "number_of_support_elements >= 0", "forall(0, len(color_map), lambda e: color_map[e] >= -1)"],
+            "loops": {1: {"invariant": [
+                "count == indexptr[_k] and count >= 0 and indexptr[0] == 0 and _k <= ncolors and ncolors >= 0",
+                "forall(0, _k + 1, lambda c: indexptr[c] <= count and 0 <= indexptr[c])",
+                "forall(0, _k, lambda c: indexptr[c] <= indexptr[c + 1])",
+                "forall(0, _k, lambda c: forall(indexptr[c], indexptr[c + 1], lambda i: 0 <= sorted_indices[i] and sorted_indices[i] < len(color_map) and color_map[sorted_indices[i]] == c))",
+                "forall(0, _k, lambda c: forall(indexptr[c], indexptr[c + 1], lambda i: forall(indexptr[c], i, lambda j: sorted_indices[j] < sorted_indices[i])))",
+                "forall(0, len(color_map), lambda e: implies(0 <= color_map[e] and color_map[e] < _k, exists(indexptr[color_map[e]], indexptr[color_map[e] + 1], lambda i: sorted_indices[i] == e)))",
+            ]}},
+            "result": ("tuple", 2),
+            "ensures": [
+                # one batch per colour 0 .. max(color_map)
+                "forall(0, len(color_map), lambda e: color_map[e] + 2 <= len(result_1))",
+                "result_1[0] == 0 and forall(0, len(result_1) - 1, lambda c: result_1[c] <= result_1[c + 1])",
+                # batch c holds elements of colour c only ...
+                "forall(0, len(result_1) - 1, lambda c: forall(result_1[c], result_1[c + 1], lambda i: 0 <= result_0[i] and result_0[i] < len(color_map) and color_map[result_0[i]] == c))",
+                # ... each at most once (strictly increasing inside a batch) ...
+                "forall(0, len(result_1) - 1, lambda c: forall(result_1[c], result_1[c + 1], lambda i: forall(result_1[c], i, lambda j: result_0[j] < result_0[i])))",
+                # ... and every coloured element is in the batch of its colour
+                "forall(0, len(color_map), lambda e: implies(color_map[e] >= 0, exists(result_1[color_map[e]], result_1[color_map[e] + 1], lambda i: result_0[i] == e)))",
+            ],
+        },
+    },
     "_colour_step_ns1": {
         "function": ("bempp_cl.api.space.space", "FunctionSpace._compute_color_map"),
         "method": True,
